@@ -81,7 +81,7 @@ def result_for(prop, sim, resolved, nontrivial, classes):
     return Result(nontrivial=nontrivial, classes=sorted(classes), violation=violation, sample=sample)
 
 
-def standard_main(prop, level, modname, rule, assumptions, tier, seed, cases, quick=(4, 250), thorough=(16, 4000), extra=None):
+def standard_main(prop, level, modname, rule, assumptions, tier, seed, cases, quick=(8, 250), thorough=(16, 4000), extra=None):
     t0 = time.time()
     shards, n = quick if tier == 'quick' else thorough
     if cases:
